@@ -8,3 +8,4 @@ package fp
 //@   input data
 //@   trusted safety contract assumed until the fp functions are brought under contract
 //@   ensures err == nil ==> 0 <= n && n <= len(data)
+//@   ensures [C19,C20] ghost_alloc == old(ghost_alloc)
